@@ -82,6 +82,9 @@ def run(ctx):
     # every second history without keep-alive: the stream peer's bytes never end on a message boundary
     for k, s_ in enumerate(stim):
         s_["pipelined"] = (not s_["keepAlive"]) and k % 2 == 0
+    for k, s_ in enumerate(stim):
+        s_["crowd"] = bool(s_.get("srv")) and k % 2 == 0
+    ctx.cov["histories_with_other_peers_coming_and_going"] = sum(1 for s_ in stim if s_["crowd"])
     ctx.cov["histories_with_pipelined_stream_bytes"] = sum(1 for s_ in stim if s_["pipelined"])
     ctx.cov["histories_with_pings_answered_by_ack"] = sum(1 for s_ in stim if s_["ackPong"])
     spath = os.path.join(ctx.work, "stimuli.ndjson")
